@@ -3,7 +3,7 @@
    * an ABSTRACT generator: [draw : req -> gstate -> value * gstate], [seed : Z -> gstate]
      (MT19937 and NumPy's sampling routines are a black box behind [draw]);
    * [check_random_state] (tensorly/backend/core.py): None -> NumPy's global generator,
-     int -> a FRESH generator object seeded with it, RandomState instance -> itself, else error;
+     int -> a FRESH generator object seeded with it (ValueError unless 0 <= int < 2**32), RandomState instance -> itself, else error;
    * a draw-skeleton language [skel] in which every draw names where its generator comes from
      (the scope's [rng] variable, obtained by [Check]; or NumPy's module-level functions, [DrawNp]),
      calls pass on [random_state] (raw), [rng] (the generator object), nothing (None) or a constant;
@@ -37,6 +37,9 @@ Fixpoint seqs (l : list skel) : skel := match l with [] => Skip | x :: r => Seq 
 Definition gen_eqb (a b : gen) : bool :=
   match a, b with GGlobal, GGlobal => true | GObj x, GObj y => Nat.eqb x y | _, _ => false end.
 
+(* numpy.random.RandomState(seed) accepts an int seed only in [0, 2**32 - 1] (ValueError otherwise) *)
+Definition seed_ok (s : Z) : bool := (0 <=? s)%Z && (s <? 4294967296)%Z.
+
 Definition eval_arg (a : argexp) (p : rsval) (c : option gen) : rsval :=
   match a with
   | ARaw => p
@@ -59,7 +62,10 @@ Inductive aparam := PNone | PInt | PLoc | PGlob | PBad.     (* abstract value of
 Definition absc (c : option gen) : acur :=
   match c with None => AUnset | Some GGlobal => AGlob | Some (GObj _) => ALoc end.
 Definition absp (p : rsval) : aparam :=
-  match p with VNone => PNone | VInt _ => PInt | VGen GGlobal => PGlob | VGen (GObj _) => PLoc | VBad => PBad end.
+  match p with
+  | VNone => PNone | VInt s => if seed_ok s then PInt else PBad     (* an out-of-range int is rejected like junk *)
+  | VGen GGlobal => PGlob | VGen (GObj _) => PLoc | VBad => PBad
+  end.
 Definition acheck (p : aparam) : option acur :=
   match p with PNone => Some AGlob | PInt => Some ALoc | PLoc => Some ALoc | PGlob => Some AGlob | PBad => None end.
 Definition aarg (a : argexp) (p : aparam) (c : acur) : aparam :=
@@ -67,7 +73,7 @@ Definition aarg (a : argexp) (p : aparam) (c : acur) : aparam :=
   | ARaw => p
   | ARng => match c with AUnset => PBad | AGlob => PGlob | ALoc => PLoc end
   | ANone => PNone
-  | AConst _ => PInt
+  | AConst s => if seed_ok s then PInt else PBad
   end.
 Definition acur_eqb (a b : acur) : bool :=
   match a, b with AUnset, AUnset | AGlob, AGlob | ALoc, ALoc => true | _, _ => false end.
@@ -134,6 +140,16 @@ Fixpoint draw_free (sk : skel) : bool :=
   | Draw _ | DrawNp _ => false
   end.
 
+(* the skeleton certainly passes its own random_state argument to check_random_state (on every path) *)
+Fixpoint must_check (sk : skel) : bool :=
+  match sk with
+  | Check => true
+  | Seq a b => must_check a || must_check b
+  | Branch _ a b => must_check a && must_check b
+  | Call ARaw body => must_check body
+  | _ => false
+  end.
+
 (* ------------------------------------------------------------------ semantics *)
 Section Sem.
 Variables gstate value req : Type.
@@ -160,8 +176,10 @@ Definition failL (w : lworld) : lworld :=
 Definition check_random_state (p : rsval) (w : lworld) : option gen * lworld :=
   match p with
   | VNone => (Some GGlobal, w)
-  | VInt s => (Some (GObj (length (heap w))),
-               {| heap := heap w ++ [seed s]; hist := hist w; ticks := ticks w; srcs := srcs w; failed := failed w |})
+  | VInt s => if seed_ok s
+              then (Some (GObj (length (heap w))),
+                    {| heap := heap w ++ [seed s]; hist := hist w; ticks := ticks w; srcs := srcs w; failed := failed w |})
+              else (None, failL w)          (* np.random.RandomState(seed) raises ValueError *)
   | VGen g => (Some g, w)
   | VBad => (None, failL w)
   end.
@@ -264,6 +282,150 @@ Arguments srcs {gstate value}. Arguments failed {gstate value}.
 Arguments decide {value req}. Arguments stop {value req}. Arguments request {value req}.
 Arguments HNone {gstate}. Arguments HInt {gstate}. Arguments HInst {gstate}. Arguments HGlobObj {gstate}. Arguments HBad {gstate}.
 Arguments o_hist {gstate value}. Arguments o_failed {gstate value}. Arguments o_inst {gstate value}. Arguments o_srcs {gstate value}.
+
+(* ------------------------------------------------------------------ a Python-shaped skeleton language *)
+(* What the harness extracts from the SOURCE (corr:C16-static) is written in this second language, which keeps the
+   NAMES of the code: every scope has numbered variables holding random_state-like values (variable 0 = the scope's
+   random_state / seed argument), `x = e`, `x = check_random_state(e)`, `x.<sampler>()`, numpy.random module-level
+   draws and calls `callee(random_state=e)`.  No abstraction is made by the harness: several generator names per
+   scope, aliases of the argument, re-assignment of the argument, np.random used as an object are all expressible;
+   the collapse onto "safe / possibly the global generator" is done by [pgf] below and proved sound. *)
+Inductive pexp := PVar (x : nat) | PNoneE | PConstE (s : Z) | PGlobE.     (* a name | None | int literal | np.random, np.random.mtrand._rand *)
+Inductive pskel :=
+| PSkip
+| PSeq (a b : pskel)
+| PBranch (t : nat) (a b : pskel)
+| PFor (t n : nat) (body : pskel)
+| PAssign (x : nat) (e : pexp)            (* x = e *)
+| PCheck (x : nat) (e : pexp)             (* x = check_random_state(e) *)
+| PDraw (x t : nat)                       (* x.<sampling method>(...) *)
+| PDrawNp (t : nat)                       (* np.random.<function>(...) *)
+| PCall (e : pexp) (body : pskel).        (* callee(..., random_state=e): body runs in a new scope whose variable 0 is e *)
+
+Fixpoint pseqs (l : list pskel) : pskel := match l with [] => PSkip | x :: r => PSeq x (pseqs r) end.
+
+Fixpoint setv {A} (d : A) (x : nat) (v : A) (l : list A) : list A :=
+  match x, l with
+  | 0, [] => [v]
+  | 0, _ :: r => v :: r
+  | S x', [] => d :: setv d x' v []
+  | S x', y :: r => y :: setv d x' v r
+  end.
+
+Definition peval (e : pexp) (env : list rsval) : rsval :=
+  match e with PVar x => nth x env VBad | PNoneE => VNone | PConstE s => VInt s | PGlobE => VGen GGlobal end.
+Definition of_gen (c : option gen) : rsval := match c with Some g => VGen g | None => VBad end.
+
+(* abstract environments: finitely many variables + a default for all the others *)
+Definition aenv := (list wcur * wcur)%type.
+Definition alook (x : nat) (A : aenv) : wcur := nth x (fst A) (snd A).
+Definition aset (x : nat) (v : wcur) (A : aenv) : aenv := (setv (snd A) x v (fst A), snd A).
+Definition ajoin (A B : aenv) : aenv :=
+  (map (fun i => wjoin (alook i A) (alook i B)) (seq 0 (Nat.max (length (fst A)) (length (fst B)))), wjoin (snd A) (snd B)).
+Definition ale (A B : aenv) : bool :=
+  forallb (fun i => wle (alook i A) (alook i B)) (seq 0 (Nat.max (length (fst A)) (length (fst B)))) && wle (snd A) (snd B).
+Definition atop : aenv := ([], WUnsafe).
+Definition aeval (e : pexp) (A : aenv) : wcur :=
+  match e with PVar x => alook x A | PNoneE => WUnsafe | PConstE _ => WSafe | PGlobE => WUnsafe end.
+
+(* [pgf sk A = Some A']: started with variables abstracted by A, no draw of sk reaches the global generator, and A'
+   abstracts the variables afterwards.  Joins are pointwise; a loop is analysed at its entry state if that is
+   stable, otherwise at the top state. *)
+Fixpoint pgf (sk : pskel) (A : aenv) : option aenv :=
+  match sk with
+  | PSkip => Some A
+  | PSeq a b => match pgf a A with Some A1 => pgf b A1 | None => None end
+  | PBranch _ a b => match pgf a A, pgf b A with Some A1, Some A2 => Some (ajoin A1 A2) | _, _ => None end
+  | PFor _ _ body =>
+      match pgf body A with
+      | Some A1 => if ale A1 A then Some A
+                   else match pgf body atop with Some _ => Some atop | None => None end
+      | None => None
+      end
+  | PAssign x e => Some (aset x (aeval e A) A)
+  | PCheck x e => Some (aset x (aeval e A) A)
+  | PDraw x _ => match alook x A with WSafe => Some A | WUnsafe => None end
+  | PDrawNp _ => None
+  | PCall e body => match pgf body ([aeval e A], WSafe) with Some _ => Some A | None => None end
+  end.
+
+(* a whole call: variable 0 (the argument) is an int, a generator object other than the global one, or junk *)
+Definition pglobal_free (sk : pskel) : bool := match pgf sk ([WSafe], WSafe) with Some _ => true | None => false end.
+
+Fixpoint pdraw_free (sk : pskel) : bool :=
+  match sk with
+  | PSkip | PAssign _ _ | PCheck _ _ => true
+  | PSeq a b | PBranch _ a b => pdraw_free a && pdraw_free b
+  | PFor _ _ body | PCall _ body => pdraw_free body
+  | PDraw _ _ | PDrawNp _ => false
+  end.
+
+Section PSem.
+Variables gstate value req : Type.
+Variable draw : req -> gstate -> value * gstate.
+Variable seed : Z -> gstate.
+Notation lw := (lworld gstate value).
+Notation I_ := (interp value req).
+
+Fixpoint ploopL (f : list rsval -> lw -> option (list rsval * lw)) (stp : nat -> list value -> bool)
+         (k i : nat) (env : list rsval) (w : lw) : option (list rsval * lw) :=
+  match k with
+  | 0 => Some (env, w)
+  | S k' => if stp i (hist w) then Some (env, w)
+            else match f env w with Some (e1, w1) => ploopL f stp k' (S i) e1 w1 | None => None end
+  end.
+
+(* the semantics without a global generator *)
+Fixpoint prun_local (I : I_) (sk : pskel) (env : list rsval) (w : lw) : option (list rsval * lw) :=
+  match sk with
+  | PSkip => Some (env, w)
+  | PSeq a b => match prun_local I a env w with Some (e1, w1) => prun_local I b e1 w1 | None => None end
+  | PBranch t a b => if decide I t (hist w) then prun_local I a env w else prun_local I b env w
+  | PFor t n body => ploopL (prun_local I body) (stop I t) n 0 env w
+  | PAssign x e => Some (setv VBad x (peval e env) env, w)
+  | PCheck x e => let (c1, w1) := check_random_state gstate value seed (peval e env) (tickL gstate value w) in
+                  Some (setv VBad x (of_gen c1) env, w1)
+  | PDraw x t => match nth x env VBad with
+                 | VGen (GObj h) => Some (env, draw_obj gstate value req draw I t h (tickL gstate value w))
+                 | VGen GGlobal => None
+                 | _ => Some (env, failL gstate value (tickL gstate value w))      (* AttributeError / NameError *)
+                 end
+  | PDrawNp _ => None
+  | PCall e body => match prun_local I body [peval e env] w with Some (_, w1) => Some (env, w1) | None => None end
+  end.
+
+Variable genv : nat -> gstate -> gstate.
+
+Fixpoint ploopG (f : list rsval -> lw -> gstate -> list rsval * lw * gstate) (stp : nat -> list value -> bool)
+         (k i : nat) (env : list rsval) (w : lw) (g : gstate) : list rsval * lw * gstate :=
+  match k with
+  | 0 => (env, w, g)
+  | S k' => if stp i (hist w) then (env, w, g)
+            else let '(e1, w1, g1) := f env w g in ploopG f stp k' (S i) e1 w1 g1
+  end.
+
+(* the whole process *)
+Fixpoint prun (I : I_) (sk : pskel) (env : list rsval) (w : lw) (g : gstate) : list rsval * lw * gstate :=
+  match sk with
+  | PSkip => (env, w, g)
+  | PSeq a b => let '(e1, w1, g1) := prun I a env w g in prun I b e1 w1 g1
+  | PBranch t a b => if decide I t (hist w) then prun I a env w g else prun I b env w g
+  | PFor t n body => ploopG (prun I body) (stop I t) n 0 env w g
+  | PAssign x e => (setv VBad x (peval e env) env, w, g)
+  | PCheck x e => let (c1, w1) := check_random_state gstate value seed (peval e env) (tickL gstate value w) in
+                  (setv VBad x (of_gen c1) env, w1, genv (ticks w) g)
+  | PDraw x t => match nth x env VBad with
+                 | VGen (GObj h) => (env, draw_obj gstate value req draw I t h (tickL gstate value w), genv (ticks w) g)
+                 | VGen GGlobal => let (w1, g1) := draw_glob gstate value req draw I t (tickL gstate value w) (genv (ticks w) g) in (env, w1, g1)
+                 | _ => (env, failL gstate value (tickL gstate value w), genv (ticks w) g)
+                 end
+  | PDrawNp t => let (w1, g1) := draw_glob gstate value req draw I t (tickL gstate value w) (genv (ticks w) g) in (env, w1, g1)
+  | PCall e body => let '(_, w1, g1) := prun I body [peval e env] w g in (env, w1, g1)
+  end.
+
+Definition pcall (I : I_) (sk : pskel) (a : rsarg gstate) (g : gstate) : outcome gstate value * gstate :=
+  let '(_, w, g') := prun I sk [param0 gstate a] (w0 gstate value a) g in (outcome_of gstate value a w, g').
+End PSem.
 
 (* ------------------------------------------------------------------ histories of one process *)
 Section Hist.
